@@ -495,6 +495,9 @@ var redirectTargets = map[string]string{
 	"VerifStub_json_Unmarshal":           "encoding/json.Unmarshal",
 	"VerifStub_json_Marshal":             "encoding/json.Marshal",
 	"VerifStub_blockrelay_UnmarshalJSON": "github.com/attestantio/vouch/services/blockrelay.UnmarshalJSON",
+	// a relay's REST client (HTTP transport, background goroutine): replaced by a harness stub so that the
+	// cache-miss path of util.FetchBuilderClient runs
+	"VerifStub_builderhttp_New": "github.com/attestantio/go-builder-client/http.New",
 	// the REST daemon of the relay service opens a listening socket
 	"VerifStub_restdaemon_New": "github.com/attestantio/go-block-relay/services/daemon/rest.New",
 	// opening a wallet reads the wallet stores on disk and decrypts
